@@ -194,6 +194,7 @@ def run_parts(prop, args):
         os.execv(sys.executable, [sys.executable, __file__, "run", parts[0] if parts else prop.lower()] + args)
     worst = 0
     t0 = time.time()
+    broken = []
     for h in parts:
         pf = os.path.join(VERIF, "evidence", "%s.part-%s.json" % (prop, h))
         if os.path.exists(pf):
@@ -201,13 +202,19 @@ def run_parts(prop, args):
         env = dict(os.environ)
         env["VERIF_PART"] = h
         r = subprocess.run([sys.executable, __file__, "run", h] + args, env=env)
-        if r.returncode == 2:
-            sys.exit(2)
+        if r.returncode not in (0, 1):
+            # an engine error of one part does not take back a violation another part has reported (or will report)
+            broken.append(h)
+            continue
         worst = max(worst, r.returncode)
+    if broken and worst == 0:
+        sys.exit(2)
     merged = None
     for h in parts:
         pf = os.path.join(VERIF, "evidence", "%s.part-%s.json" % (prop, h))
         if not os.path.exists(pf):
+            if h in broken:
+                continue
             sys.stderr.write("engine error: part %s wrote no evidence\n" % h)
             sys.exit(2)
         ev = json.load(open(pf))
